@@ -2,8 +2,8 @@
  * KIND (cell) = kind of the source value (0 null, 1 bool, 2 int, 4 string of LEN bytes; 3 float: every bit pattern except
  * NaN, which is never equal to itself), OVER (cell) = kind of the value that is overwritten by copy ASSIGNMENT.
  * Asserted: copy-constructed and copy-assigned values compare == (and not !=) to the source and hold the same alternative;
- * the assigned value serializes to the same text as an independently formatted source (ints in hex, so no libstdc++
- * decimal digits are involved; floats are excluded from the text check, their text rule is kernel 3); for strings,
+ * the assigned null/bool/int serializes to the same text as an independently formatted source (ints in hex, so no libstdc++
+ * decimal digits are involved; float and string text rules are kernels 3 and 4); for strings,
  * appending to the copy leaves the source bytes untouched (deep copy). */
 #include "harness.h"
 #include "stub_printf.h"
